@@ -129,12 +129,12 @@ func tokLines(ls []string) [][]string {
 func mixedPositions(e []string) [][][]string {
 	d := func(s string) []string { return []string{s} }
 	return [][][]string{
-		{e, d("##!=>"), d("a")},                                                 // single line before a marker
-		{d("a"), d("##!=>"), e},                                                 // after a marker
-		{d("##!> assemble"), e, d("##!<"), d("b")},                              // in a nested block beside a sibling
-		{d("##!> assemble"), e, d("c"), d("##!=>"), d("a"), d("##!<"), d("b")},  // nested, concatenated
-		{e, d("##!=< x"), d("##!=> x"), d("##!=> x")},                           // stored and used twice
-		{e, d("b"), d("##!=< x"), d("a"), d("##!=> x")},                         // stored alternation appended
+		{e, d("##!=>"), d("a")},                                                // single line before a marker
+		{d("a"), d("##!=>"), e},                                                // after a marker
+		{d("##!> assemble"), e, d("##!<"), d("b")},                             // in a nested block beside a sibling
+		{d("##!> assemble"), e, d("c"), d("##!=>"), d("a"), d("##!<"), d("b")}, // nested, concatenated
+		{e, d("##!=< x"), d("##!=> x"), d("##!=> x")},                          // stored and used twice
+		{e, d("b"), d("##!=< x"), d("a"), d("##!=> x")},                        // stored alternation appended
 	}
 }
 
